@@ -577,3 +577,76 @@ func init() {
 			}
 		}})
 }
+
+func init() {
+	register(&Rule{ID: "K.ctx", Min: 2, Text: "the document never loses its clocks through a presence-only change: Context.NextID returns either the ID prepared with full clocks (the nextID field, built by prevID.Next()) or, on the no-operations path, an ID built without clocks (Next(true)) into which both the lamport and the version vector of prevID have been stored before it is returned — an ID without the vector becomes the document's changeID, and the next local delete/style of another actor's content runs with 'nothing seen' on the document and 'everything seen' on the editing copy",
+		Run: func(x *Ctx) {
+			fn := x.fn(changePkg + ".(*Context).NextID")
+			prevF := x.P.Field(changePkg + ".Context.prevID")
+			nextF := x.P.Field(changePkg + ".Context.nextID")
+			vvF := x.P.Field(changePkg + ".ID.versionVector")
+			lamF := x.P.Field(changePkg + ".ID.lamport")
+			if fn == nil || prevF == nil || nextF == nil || vvF == nil || lamF == nil {
+				x.C.Unresolved(x.id(), "change.Context.NextID / ID fields")
+				return
+			}
+			fromPrev := func(v ssa.Value, f *types.Var) bool {
+				if prog.LoadedField(v) != f {
+					return false
+				}
+				u, ok := prog.Strip(v).(*ssa.UnOp)
+				if !ok {
+					return false
+				}
+				fa, ok := u.X.(*ssa.FieldAddr)
+				if !ok {
+					return false
+				}
+				// the base is prevID: &c.prevID, or a load of it
+				switch b := fa.X.(type) {
+				case *ssa.FieldAddr:
+					return prog.FieldVar(b) == prevF
+				case *ssa.UnOp:
+					if bf, isF := b.X.(*ssa.FieldAddr); isF {
+						return prog.FieldVar(bf) == prevF
+					}
+				}
+				return prog.LoadedField(fa.X) == prevF
+			}
+			for i, r := range prog.Returns(fn) {
+				v := prog.ReturnValue(r, 0)
+				k := fmt.Sprintf("func=%s return#%d carries-clocks", prog.FnName(fn), i+1)
+				if prog.Reaches(v, func(w ssa.Value) bool { return prog.LoadedField(w) == nextF }) {
+					x.hold(k, x.pos(r), "returns the ID prepared with full clocks")
+					continue
+				}
+				// a local ID: both clock fields stored from prevID before the return
+				var al *ssa.Alloc
+				if u, ok := prog.Strip(r.Results[0]).(*ssa.UnOp); ok {
+					al, _ = u.X.(*ssa.Alloc)
+				}
+				okVV, okLam := false, false
+				if al != nil {
+					for _, ref := range *al.Referrers() {
+						fa, isFA := ref.(*ssa.FieldAddr)
+						if !isFA {
+							continue
+						}
+						for _, rr := range *fa.Referrers() {
+							st, isSt := rr.(*ssa.Store)
+							if !isSt || st.Addr != ssa.Value(fa) || !prog.Dominates(st, r) {
+								continue
+							}
+							switch prog.FieldVar(fa) {
+							case vvF:
+								okVV = fromPrev(st.Val, vvF)
+							case lamF:
+								okLam = fromPrev(st.Val, lamF)
+							}
+						}
+					}
+				}
+				x.check(okVV && okLam, k, x.pos(r), "the lamport and the version vector of prevID are stored into the returned ID", "the ID returned for a presence-only change does not carry prevID's "+map[bool]string{true: "lamport", false: "version vector"}[okVV]+": the document's clocks are reset by a presence update")
+			}
+		}})
+}
